@@ -174,19 +174,43 @@ impl<'a> UserDefinedFunctionLinter<'a> {
 
 impl<'a> PostConversionLinter for UserDefinedFunctionLinter<'a> {
     fn visit_expression(&mut self, expr_pos: &ExpressionPos) -> Result<(), LintErrorPos> {
-        let Positioned { element: e, pos } = expr_pos;
-        match e {
+        self.visit_expression_at(&expr_pos.element, expr_pos.pos())
+    }
+}
+
+impl<'a> UserDefinedFunctionLinter<'a> {
+    /// Lints the user defined function calls found anywhere inside the given expression.
+    fn visit_expression_at(
+        &mut self,
+        expr: &Expression,
+        pos: Position,
+    ) -> Result<(), LintErrorPos> {
+        match expr {
             Expression::FunctionCall(n, args) => {
                 for x in args {
                     self.visit_expression(x)?;
                 }
-                self.visit_function(n, *pos, args)
+                self.visit_function(n, pos, args)
+            }
+            Expression::BuiltInFunctionCall(_, args) => {
+                for x in args {
+                    self.visit_expression(x)?;
+                }
+                Ok(())
+            }
+            Expression::ArrayElement(_, args, _) => {
+                for x in args {
+                    self.visit_expression(x)?;
+                }
+                Ok(())
             }
             Expression::BinaryExpression(_, left, right, _) => {
                 self.visit_expression(left)?;
                 self.visit_expression(right)
             }
             Expression::UnaryExpression(_, child) => self.visit_expression(child),
+            Expression::Parenthesis(child) => self.visit_expression(child),
+            Expression::Property(owner, _, _) => self.visit_expression_at(owner, pos),
             _ => Ok(()),
         }
     }
